@@ -15,13 +15,24 @@ Direct oracle (failing-input search, on the implementation alone): the
 rendered value at every site equals the intended string (an independent
 reference decoder decides validity), invalid spellings raise
 LiquidSyntaxError only, integers render as written, floats as the correctly
-rounded value, `json.loads(render) == input`.
+rounded value, `json.loads(render) == input`.  Configuration axis: every literal
+position (output, filter argument positional / keyword, tag keyword argument,
+macro argument and default, bracketed segment, interpolated string ...) is
+rendered with auto_escape off and on and must write exactly the literal's text
+(the literal is template-author text).  History axis: scalars that are equal
+under `==` but differ in type or sign (True / 1 / 1.0, False / 0 / 0.0 / -0.0 ...)
+go through the json filter in several orders within one process (long-lived
+and fresh environments, data and literals; further orders in subprocesses) and
+must each decode to a value of the same type, value and sign.
 """
 
 from __future__ import annotations
 
 import itertools
+import math
 import os
+import subprocess
+import sys
 import json
 import re
 import warnings
@@ -905,7 +916,7 @@ def tie_numbers(run: Run) -> None:
     num_inputs: list[str] = []
     for n in range(1, maxlen + 1):
         for combo in itertools.product(NUM_ALPHA, repeat=n):
-            if combo[0] in "019-" and (thorough or n < 4 or r.random() < 0.25):
+            if combo[0] in "019-" and (thorough or n < 4 or r.random() < 0.12):
                 num_inputs.append("".join(combo))
     for _ in range(300 if not thorough else 3000):
         num_inputs.append("".join(r.choice(NUM_ALPHA) for _ in range(r.randint(5, 10))))
@@ -1015,11 +1026,308 @@ def tie_json(run: Run) -> None:
                      {"value": v, "output": out[1]})
         run.add("json", f"json_ok {c_jv(v)} {C.cstr(out[1])}", f"json_filter {c_jv(v)}",
                 {"template": "{{ x | json }}", "x": v, "implementation": out[1]})
-        if not isinstance(back, BaseException):
-            run.add("json_decode", f"jdec_ok {C.cstr(out[1])} {c_jv(back)}", f"json_decode {C.cstr(out[1])}",
+        try:
+            cback = None if isinstance(back, BaseException) else c_jv(back)
+        except TypeError:
+            cback = None      # a float came back: outside the model, and already reported by the oracle above
+        if cback is not None:
+            run.add("json_decode", f"jdec_ok {C.cstr(out[1])} {cback}", f"json_decode {C.cstr(out[1])}",
                     {"function": "json.loads", "text": out[1], "implementation": back})
         if out[1] != json.dumps(v, ensure_ascii=False, separators=(",", ":")):
             run.nontrivial.add("j:" + out[1])
+
+
+# ---------------------------------------------------------------- auto_escape x literal positions
+
+AE_TEMPLATES = {"p": "{{ s }}"}
+
+# name: (source with %s for the literal, what the render must write given the intended string s)
+AE_SITES: dict[str, tuple[str, Any]] = {
+    "output": ("{{ %s }}", lambda s: s),
+    "echo": ("{%% echo %s %%}", lambda s: s),
+    "assign": ("{%% assign z = %s %%}{{ z }}", lambda s: s),
+    "capture": ("{%% capture c %%}{{ %s }}{%% endcapture %%}{{ c }}", lambda s: s),
+    "filter_pos_append": ("{{ 'x' | append: %s }}", lambda s: "x" + s),
+    "filter_pos_prepend": ("{{ 'x' | prepend: %s }}", lambda s: s + "x"),
+    "filter_pos_default": ("{{ nil | default: %s }}", lambda s: s),
+    "filter_pos_default_kw": ("{{ false | default: %s, allow_false: false }}", lambda s: s),
+    "filter_pos_join": ("{{ arr | join: %s }}", lambda s: "1" + s + "2"),
+    "filter_pos_replace": ("{{ 'a_b' | replace: '_', %s }}", lambda s: "a" + s + "b"),
+    "filter_pos_replace_first": ("{{ 'a_b' | replace_first: '_', %s }}", lambda s: "a" + s + "b"),
+    "filter_pos_split": ("{{ h | split: %s | join: '|' }}", lambda s: "1|2"),
+    "filter_pos_identity": ("{{ 1 | c20pos: %s }}", lambda s: s),
+    "filter_pos_second": ("{{ 1 | c20pos2: 'k', %s }}", lambda s: s),
+    "filter_kw_colon": ("{{ 1 | c20kw: s: %s }}", lambda s: s),
+    "filter_kw_equals": ("{{ 1 | c20kw: s=%s }}", lambda s: s),
+    "filter_left": ("{{ %s | c20left }}", lambda s: s),
+    "filter_chain": ("{{ 'x' | append: %s | append: 'y' }}", lambda s: "x" + s + "y"),
+    "tag_kw_with": ("{%% with s: %s %%}{{ s }}{%% endwith %%}", lambda s: s),
+    "tag_kw_render": ("{%% render 'p', s: %s %%}", lambda s: s),
+    "tag_kw_include": ("{%% include 'p', s: %s %%}", lambda s: s),
+    "tag_with_render": ("{%% render 'p' with %s as s %%}", lambda s: s),
+    "tag_with_include": ("{%% include 'p' with %s as s %%}", lambda s: s),
+    "macro_call_kw": ("{%% macro m, s %%}{{ s }}{%% endmacro %%}{%% call m, s: %s %%}", lambda s: s),
+    "macro_call_pos": ("{%% macro m, s %%}{{ s }}{%% endmacro %%}{%% call m, %s %%}", lambda s: s),
+    "macro_default": ("{%% macro m, s: %s %%}{{ s }}{%% endmacro %%}{%% call m %%}", lambda s: s),
+    "cycle": ("{%% cycle %s, 'b' %%}", lambda s: s),
+    "ternary": ("{{ %s if true else 'n' }}", lambda s: s),
+    "ternary_else": ("{{ 'n' if false else %s }}", lambda s: s),
+    "case_when": ("{%% case v %%}{%% when %s %%}T{%% else %%}F{%% endcase %%}", lambda s: "T"),
+    "if_eq": ("{%% if %s == v %%}T{%% else %%}F{%% endif %%}", lambda s: "T"),
+    "path_segment": ("{{ x[%s] }}", lambda s: "V"),
+}
+
+AE_SPECIALS = ["&", "<", ">", "'", '"']
+
+
+def ae_environments(im: Impl) -> dict[bool, Any]:
+    envs = {}
+    for ae in (False, True):
+        env = im.Environment(loader=im.DictLoader(dict(AE_TEMPLATES)), auto_escape=ae)
+        env.filters["c20pos"] = lambda left, arg: arg
+        env.filters["c20pos2"] = lambda left, a, b: b
+        env.filters["c20left"] = lambda left: left
+
+        def kw(left: object, *, s: object = "") -> object:
+            return s
+        env.filters["c20kw"] = kw
+        envs[ae] = env
+    return envs
+
+
+def oracle_autoescape(run: Run, triples: list[tuple[str, str, str]]) -> None:
+    """auto_escape off/on x every literal position: what is written is the
+    literal's text (for an interpolated string: its value, escaped as a whole
+    under auto_escape since it mixes in data)."""
+    from markupsafe import escape
+    im = run.im
+    envs = ae_environments(im)
+    xv = "<d&>"
+    for q, s, raw in triples:
+        if ref_decode(q, raw, True) != s:
+            continue          # a bare `${`: interpolation (covered below)
+        literal = lit(q, raw)
+        data = {"arr": ["1", "2"], "h": "1" + s + "2", "v": s, "x": {s: "V"}}
+        for name, (fmt, expect) in AE_SITES.items():
+            if name == "filter_pos_split" and (s == "" or "1" in s or "2" in s):
+                continue
+            src = fmt % literal
+            want = expect(s)
+            outs = {}
+            for ae, env in envs.items():
+                outs[ae] = attempt(lambda env=env, src=src: env.from_string(src).render(**data))
+                run.count("oracle_renders")
+                run.count("autoescape_renders")
+            for ae in (False, True):
+                if outs[ae] != ("ok", want):
+                    got = outs[ae][1] if outs[ae][0] == "ok" else type(outs[ae][1]).__name__
+                    run.fail(f"literal-value:auto_escape={ae}:{name}",
+                             f"auto_escape={ae}, position {name}: literal {literal!r} writes {got!r}, written {want!r}",
+                             {"auto_escape": ae, "position": name, "source": src, "data": data,
+                              "intended": want, "got": got})
+        # interpolated string around the literal text
+        if not _has_interp(raw):
+            src = "{{ " + q + raw + "${y}" + raw + q + " }}"
+            value = s + xv + s
+            for ae, env in envs.items():
+                out = attempt(lambda env=env, src=src: env.from_string(src).render(y=xv))
+                run.count("oracle_renders")
+                run.count("autoescape_renders")
+                want = str(escape(value)) if ae else value
+                if out != ("ok", want):
+                    got = out[1] if out[0] == "ok" else type(out[1]).__name__
+                    run.fail(f"literal-value:auto_escape={ae}:interpolated_string",
+                             f"auto_escape={ae}: {src!r} writes {got!r}, its value is {value!r}",
+                             {"auto_escape": ae, "source": src, "data": {"y": xv}, "intended": want, "got": got})
+        if any(c in s for c in AE_SPECIALS):
+            run.nontrivial.add(f"ae:{q}:{raw}")
+
+
+def gen_autoescape_literals(run: Run, pool: list[tuple[str, str, str]]) -> list[tuple[str, str, str]]:
+    r = run.r
+    out: list[tuple[str, str, str]] = []
+    strings = list(AE_SPECIALS) + ["<b>", "&amp;", "a&b<c>d'e\"f", "<script>alert('x')</script>", "\"'", "&lt;", "", "&#39;",
+                                   "é<\U0001F600>", "${x}", "{{ '<' }}", "\\<", "a"]
+    for a in AE_SPECIALS:
+        for b in AE_SPECIALS:
+            strings.append(a + b)
+    for _ in range(20 if not run.thorough else 400):
+        strings.append("".join(r.choice(AE_SPECIALS + ALPHABET) for _ in range(r.randint(1, 8))))
+    for s in dict.fromkeys(strings):
+        qs = (SQ, DQ) if run.thorough or len(s) <= 1 else (r.choice((SQ, DQ)),)
+        for q in qs:
+            # the plainest spelling and a seeded one
+            plain = "".join(spellings(c, q)[0] for c in s)
+            out.append((q, s, plain))
+            out.append((q, s, random_spelling(r, q, s, True)))
+    out += [t for t in pool if any(c in t[1] for c in AE_SPECIALS)][:: (7 if not run.thorough else 1)]
+    return list(dict.fromkeys(out))
+
+
+# ---------------------------------------------------------------- json under history, typed comparison
+
+J_SCALARS: list[Any] = [True, False, 1, 0, 1.0, 0.0, -0.0, -1, -1.0, 2, 2.0, 10**16, 1e16, 2**53, float(2**53),
+                        0.5, -0.5, 1.5, None, "1", "true", "1.0", "", "0", 3, 3.0, 255, 255.0, 1e100, 10**100]
+J_NESTED: list[Any] = [[True, 1, 1.0], [1.0, 1, True], [False, 0, 0.0, -0.0], [-0.0, 0.0, 0, False],
+                       {"a": True, "b": 1, "c": 1.0}, {"a": 0.0, "b": False, "c": 0}, [[1.0], [True], [1]]]
+J_LITERALS: list[tuple[str, Any]] = [
+    ("true", True), ("false", False), ("1", 1), ("0", 0), ("1.0", 1.0), ("0.0", 0.0), ("-0.0", -0.0), ("-1", -1),
+    ("-1.0", -1.0), ("1e0", 1), ("1e-0", 1.0), ("2", 2), ("2.0", 2.0), ("nil", None), ("'1'", "1"), ("'true'", "true"),
+    ("0.5", 0.5), ("1e16", 10**16), ("1.0e16", 1e16), ("-0", 0), ("00", 0), ("0e0", 0), ("0.0e0", 0.0),
+]
+
+
+def typed_equal(a: Any, b: Any) -> bool:
+    """Same type, same value, same sign of zero, recursively (True is not 1 is not 1.0)."""
+    if type(a) is not type(b):
+        return False
+    if isinstance(a, float):
+        return a == b and math.copysign(1.0, a) == math.copysign(1.0, b)
+    if isinstance(a, list):
+        return len(a) == len(b) and all(typed_equal(x, y) for x, y in zip(a, b))
+    if isinstance(a, dict):
+        return list(a) == list(b) and all(typed_equal(a[k], b[k]) for k in a)
+    return a == b
+
+
+def json_history_ops(order: list[Any], lits: list[tuple[str, Any]], modes: list[str]) -> list[list[Any]]:
+    """ops: ["data", mode, value] | ["lit", mode, source]; mode: long | fresh."""
+    ops: list[list[Any]] = []
+    for i, v in enumerate(order):
+        ops.append(["data", modes[i % len(modes)], v])
+    for i, (src, _) in enumerate(lits):
+        ops.append(["lit", modes[(i + 1) % len(modes)], "{{ " + src + " | json }}"])
+    return ops
+
+
+def json_history_run(ops: list[list[Any]]) -> list[list[str]]:
+    """Run the ops in this process, in order: [["ok", text] | ["err", class name]]."""
+    from liquid2 import Environment
+    long_env = Environment()
+    long_tpl = long_env.from_string("{{ x | json }}")
+    lit_cache: dict[str, Any] = {}
+    out: list[list[str]] = []
+    for kind, mode, payload in ops:
+        try:
+            if kind == "data":
+                if mode == "long":
+                    text = long_tpl.render(x=payload)
+                else:
+                    text = Environment().from_string("{{ x | json }}").render(x=payload)
+            elif mode == "long":
+                if payload not in lit_cache:
+                    lit_cache[payload] = long_env.from_string(payload)
+                text = lit_cache[payload].render()
+            else:
+                text = Environment().from_string(payload).render()
+            out.append(["ok", text])
+        except Exception as e:  # noqa: BLE001
+            out.append(["err", type(e).__name__])
+    return out
+
+
+def json_history_worker() -> None:
+    """Subprocess entry: ops as JSON on stdin, results as JSON on stdout."""
+    ops = json.loads(sys.stdin.read())
+    sys.stdout.write(json.dumps(json_history_run(ops)))
+
+
+def json_history_check(run: Run, where: str, ops: list[list[Any]], res: list[list[str]],
+                       lit_values: dict[str, Any]) -> None:
+    seen: list[str] = []
+    for (kind, mode, payload), (st, text) in zip(ops, res):
+        want = payload if kind == "data" else lit_values[payload]
+        label = repr(payload) if kind == "data" else payload
+        seen.append(label)
+        run.count("json_history_ops")
+        ok = False
+        back: Any = None
+        if st == "ok":
+            try:
+                back = json.loads(text)
+                ok = typed_equal(back, want)
+            except Exception as e:  # noqa: BLE001
+                back = type(e).__name__
+        if not ok:
+            run.fail("json-roundtrip-history",
+                     f"{where}: after {seen[-6:-1]} the json filter gives {text!r} for {label} ({mode} environment): "
+                     f"decodes to {back!r} ({type(back).__name__}), input is {want!r} ({type(want).__name__})",
+                     {"where": where, "ops": ops[: len(seen)], "output": text, "decoded": repr(back), "input": repr(want)})
+            return
+
+
+def json_history_orders(run: Run) -> list[tuple[str, list[Any], list[tuple[str, Any]], list[str]]]:
+    """(name, data order, literal order, environment modes) for the subprocess runs."""
+    r = run.r
+    bools = [v for v in J_SCALARS if isinstance(v, bool)]
+    floats = [v for v in J_SCALARS if isinstance(v, float)]
+    ints = [v for v in J_SCALARS if type(v) is int]
+    rest = [v for v in J_SCALARS if not isinstance(v, (bool, int, float))]
+    lb = [l for l in J_LITERALS if isinstance(l[1], bool)]
+    lf = [l for l in J_LITERALS if isinstance(l[1], float)]
+    li = [l for l in J_LITERALS if type(l[1]) is int]
+    lr = [l for l in J_LITERALS if not isinstance(l[1], (bool, int, float))]
+    orders = [
+        ("bools-floats-ints", bools + floats + ints + rest + J_NESTED, lb + lf + li + lr, ["long"]),
+        ("floats-bools-ints", floats + bools + ints + rest + J_NESTED, lf + lb + li + lr, ["fresh"]),
+        ("ints-negzero-bools", ints + [-0.0, 0.0] + bools + [f for f in floats if f != 0] + rest + list(reversed(J_NESTED)),
+         li + lf[::-1] + lb + lr, ["long", "fresh"]),
+    ]
+    for i in range(2 if not run.thorough else 12):
+        d = J_SCALARS + J_NESTED
+        d = r.sample(d, len(d))
+        l = r.sample(J_LITERALS, len(J_LITERALS))
+        # literals first in half of them: the literal and the data value of a class swap places
+        orders.append((f"seeded-{i}", d, l, r.choice([["long"], ["fresh"], ["fresh", "long"]])))
+    return orders
+
+
+def json_history_start(run: Run) -> list[tuple[str, list[list[Any]], Any]]:
+    """Start the subprocess runs (each begins with an empty process: no earlier json call)."""
+    procs = []
+    env = dict(os.environ)
+    for name, order, lits, modes in json_history_orders(run):
+        ops = json_history_ops(order, lits, modes)
+        if name.startswith("seeded") and run.r.random() < 0.5:
+            k = len(order)
+            ops = ops[k:] + ops[:k]        # literals before data
+        p = subprocess.Popen([sys.executable, "-W", "ignore", "-c",
+                              "from harness.c20 import json_history_worker; json_history_worker()"],
+                             stdin=subprocess.PIPE, stdout=subprocess.PIPE, stderr=subprocess.PIPE, text=True,
+                             env=env, cwd=str(C.VERIF))
+        assert p.stdin is not None
+        p.stdin.write(json.dumps(ops))
+        p.stdin.close()
+        procs.append((name, ops, p))
+    return procs
+
+
+def json_history_finish(run: Run, procs: list[tuple[str, list[list[Any]], Any]]) -> None:
+    lit_values = {"{{ " + src + " | json }}": v for src, v in J_LITERALS}
+    for name, ops, p in procs:
+        out = p.stdout.read()
+        err = p.stderr.read()
+        rc = p.wait(timeout=300)
+        if rc != 0 or not out:
+            raise RuntimeError(f"json history subprocess {name} failed: {err[-500:]}")
+        # the transport is JSON: -0.0, 1.0, true and 1 survive it with their types
+        json_history_check(run, "subprocess " + name, ops, json.loads(out), lit_values)
+        run.count("json_history_processes")
+
+
+def oracle_json_history(run: Run) -> None:
+    """In this process (which has not called the json filter yet): seeded orders."""
+    r = run.r
+    lit_values = {"{{ " + src + " | json }}": v for src, v in J_LITERALS}
+    d = J_SCALARS + J_NESTED
+    for i, modes in enumerate((["long"], ["fresh"], ["long", "fresh"])):
+        ops = json_history_ops(r.sample(d, len(d)), r.sample(J_LITERALS, len(J_LITERALS)), modes)
+        if i == 1:
+            ops = list(reversed(ops))
+        json_history_check(run, f"in-process pass {i}", ops, json_history_run(ops), lit_values)
+    run.count("json_history_processes")
+    for v in J_SCALARS:
+        run.nontrivial.add("jh:" + repr(v))
 
 
 def main(chk: C.Check, build: C.Build) -> None:
@@ -1035,6 +1343,7 @@ def main(chk: C.Check, build: C.Build) -> None:
         run.timing[name] = round(time.time() - t0, 1)
         t0 = time.time()
 
+    history_procs = json_history_start(run)      # fresh processes, run while the rest proceeds
     v = gen_valid(run)
     short, three, longer = v["short"], v["three"], v["longer"]
     all_sites = list(SITES)
@@ -1051,6 +1360,11 @@ def main(chk: C.Check, build: C.Build) -> None:
     mal = malformed(r, [(s, raw) for q, s, raw in short[:: 9] + longer[:: 3]], 300 if not thorough else 3000)
     oracle_invalid(run, BOUNDARY + (mal if thorough else mal[:: 2]))
     lap("oracle_invalid")
+    oracle_autoescape(run, gen_autoescape_literals(run, short + longer))
+    lap("oracle_autoescape")
+    oracle_json_history(run)                     # before any other use of the json filter in this process
+    json_history_finish(run, history_procs)
+    lap("oracle_json_history")
 
     # correspondence (quick: about 9000 cases in all)
     k = 1 if thorough else 6
@@ -1058,7 +1372,7 @@ def main(chk: C.Check, build: C.Build) -> None:
     sub_three = three[:: (4 if not thorough else 25)]
     base = sub_short + sub_three + longer
     pick = (lambda l, n: l[:: n]) if not thorough else (lambda l, n: l[:: max(1, n // 4)])
-    tie_unescape(run, [raw.replace("\\'", "'") if q == SQ else raw for q, s, raw in base] + BOUNDARY + pick(mal, 3))
+    tie_unescape(run, [raw.replace("\\'", "'") if q == SQ else raw for q, s, raw in base] + BOUNDARY + pick(mal, 6))
     lap("tie_unescape")
     ts_cases = gen_template_strings(run, short[:: 3] + longer, 150 if not thorough else 1500)
     scan_in = [(q, raw) for q, s, raw in pick(base, 3)] \
@@ -1066,7 +1380,7 @@ def main(chk: C.Check, build: C.Build) -> None:
         + [(r.choice((SQ, DQ)), raw) for raw in pick(mal, 16)] + ts_cases
     tie_scanners(run, scan_in, [" }}", "", "] }}", "x", " | f: 'a'"])
     lap("tie_scanners")
-    val_in = [(q, raw) for q, s, raw in pick(base, 3)] \
+    val_in = [(q, raw) for q, s, raw in pick(base, 5)] \
         + [(r.choice((SQ, DQ)), raw) for raw in BOUNDARY + pick(mal, 16)]
     tie_site_values(run, val_in, 6 if not thorough else 2)
     lap("tie_site_values")
@@ -1081,7 +1395,7 @@ def main(chk: C.Check, build: C.Build) -> None:
         with open(os.environ["C20_DUMP"], "w") as f:
             json.dump([it["case"] for it in run.items], f)
     if run.items and not os.environ.get("C20_NOCOQ"):
-        C.correspond(chk, "c20", IMPORTS, DEFS, run.items, what="literals", shard=max(400, len(run.items) // 15 + 1))
+        C.correspond(chk, "c20", IMPORTS, DEFS, run.items, what="literals", shard=max(300, len(run.items) // 16 + 1))
     lap("coq")
     C.proofs_verdict(chk, proofs_ok)
 
@@ -1097,13 +1411,19 @@ def main(chk: C.Check, build: C.Build) -> None:
                  "kinds of quotes%s, plus seeded longer strings over BMP + astral planes; the direct oracle renders them at %d sites "
                  "(%s); malformed: every prefix / one edit / one deletion / one insertion of valid spellings, random strings "
                  "over an escape alphabet, hand-picked window and surrogate boundaries. numbers: strings of length <= %d "
-                 "over '%s' starting with a digit or '-' (quick: all up to length 3, a seeded quarter of length 4) through the token regex, integer spellings up to 10^40 (and around 2^53, 10^22/23, 10^308/309, the "
+                 "over '%s' starting with a digit or '-' (quick: all up to length 3, a seeded eighth of length 4) through the token regex, integer spellings up to 10^40 (and around 2^53, 10^22/23, 10^308/309, the "
                  "4300-digit limit) with e/E/+ exponents, decimal and scientific floats. json: seeded nested values. "
+                 "auto_escape off and on x %d literal positions (filter argument positional/keyword, tag keyword argument, macro "
+                 "argument/default, segment, interpolated string ...) x literals over & < > ' \" under plain and seeded spellings. "
+                 "json history: %d scalars (True/1/1.0, False/0/0.0/-0.0 ...) + nested + %d literals through the json filter in seeded "
+                 "and fixed type-major orders, long-lived and fresh environments, in this process and in fresh subprocesses, compared "
+                 "with type, value and sign of zero. "
                  "non-trivial = the case contains an escape, an interpolation, a number beyond 2^53 or with an exponent, "
                  "or JSON text with an escape") % (
                      3 if thorough else 2, json.dumps("".join(ALPHABET)),
                      "" if thorough else " (length 3: a seeded sample of %d)" % len(three),
-                     len(SITES), ", ".join(SITES), getattr(run, "num_maxlen", 4), NUM_ALPHA),
+                     len(SITES), ", ".join(SITES), getattr(run, "num_maxlen", 4), NUM_ALPHA,
+                     len(AE_SITES) + 1, len(J_SCALARS), len(J_LITERALS)),
         "samples": [
             {"source": "{{ 'a\\'\\uD83D\\uDE00' }}", "rendered": repr(attempt(im.render, "{{ 'a\\'\\uD83D\\uDE00' }}")[1])},
             {"source": "{{ 9007199254740993 }}", "rendered": str(attempt(im.render, "{{ 9007199254740993 }}")[1])},
@@ -1122,7 +1442,8 @@ def main(chk: C.Check, build: C.Build) -> None:
         "CPython float() is a parameter: the model gives the exact decimal m*10^e handed to it",
         "the ${...} sub-expression scanner is a parameter of the template-string scanner; the tie instantiates it with whitespace-separated ASCII words",
         "MAX_STR_INT equals CPython's int max str digits (the default, 4300)",
-        "json: floats, non-str keys, indent and the default= hook are outside the model",
+        "json: floats, non-str keys, indent and the default= hook are outside the Coq model (floats are covered by the typed history oracle only)",
+        "auto_escape: the literal positions are checked by the direct oracle; the Coq model has no escaping layer (C04 owns it)",
     ]
 
 
